@@ -739,8 +739,18 @@ func inParseFloat(fr *frame, a []value) value {
 	}
 	if I.freeParseFloat {
 		// over-approximation: any outcome of the real function is possible
-		I.stubs["strconv.ParseFloat on symbolic text: outcome unconstrained"]++
-		ok := I.x.newVar("internal", "parsefloat-ok", SBool, nil)
+		I.stubs["strconv.ParseFloat on symbolic text: outcome unconstrained (one uninterpreted outcome per distinct text)"]++
+		// uninterpreted function: the same text gets the same outcome
+		key := "pf"
+		for _, b := range bs {
+			switch b := b.(type) {
+			case uint8:
+				key += fmt.Sprintf(",c%d", b)
+			case *Term:
+				key += fmt.Sprintf(",t%d", b.id)
+			}
+		}
+		ok := I.x.newVar("internal", key, SBool, nil)
 		if I.x.branch(ok) {
 			return tuple{float64(0), iface{}}
 		}
